@@ -32,6 +32,7 @@ import (
 	"os/exec"
 	"path/filepath"
 	"reflect"
+	"regexp"
 	"runtime"
 	"strconv"
 	"strings"
@@ -500,13 +501,14 @@ func c10newRaces() string {
 	return s
 }
 
-// c10raceKey: first gomacro frame of each of the two stacks of the first report
-func c10raceKey(rep string) string {
+// c10raceFrames: the first gomacro frame of each of the two access stacks of ONE race report
+func c10raceFrames(rep string) []string {
 	var fr []string
 	inStack := false
 	for _, l := range strings.Split(rep, "\n") {
 		t := strings.TrimSpace(l)
-		if strings.HasPrefix(t, "Write at") || strings.HasPrefix(t, "Read at") || strings.HasPrefix(t, "Previous write at") || strings.HasPrefix(t, "Previous read at") {
+		if strings.HasPrefix(t, "Write at") || strings.HasPrefix(t, "Read at") || strings.HasPrefix(t, "Previous write at") || strings.HasPrefix(t, "Previous read at") ||
+			strings.HasPrefix(t, "Atomic write at") || strings.HasPrefix(t, "Previous atomic write at") || strings.HasPrefix(t, "Atomic read at") || strings.HasPrefix(t, "Previous atomic read at") {
 			inStack = true
 			continue
 		}
@@ -515,18 +517,88 @@ func c10raceKey(rep string) string {
 			continue
 		}
 		if inStack && strings.Contains(t, "github.com/cosmos72/gomacro/") && !strings.HasPrefix(t, "/") {
-			f := strings.TrimSuffix(strings.TrimPrefix(t, "github.com/cosmos72/gomacro/"), "()")
-			fr = append(fr, f)
+			fr = append(fr, strings.TrimSuffix(strings.TrimPrefix(t, "github.com/cosmos72/gomacro/"), "()"))
 			inStack = false
 			if len(fr) == 2 {
 				break
 			}
 		}
 	}
+	return fr
+}
+
+// c10raceSplit cuts the text of a race log into single reports
+func c10raceSplit(txt string) []string {
+	var out []string
+	for _, part := range strings.Split(txt, "==================") {
+		if strings.Contains(part, "DATA RACE") {
+			out = append(out, part)
+		}
+	}
+	return out
+}
+
+var (
+	c10reCallCache = regexp.MustCompile(`^fast\.\(\*Comp\)\.call\w*\.func[\d.]+$`)
+	c10reAddress   = regexp.MustCompile(`^fast\.\(\*Var\)\.Address\.func[\d.]+$`)
+)
+
+// c10raceKeyOf: key of ONE report.  Races whose both accesses are inside one of two families of generated closures get a
+// stable name (the closure numbers differ per arity / kind):
+//
+//	race-call-cache            fast/call*ret*.go: the compiled call statement caches the callee (cachedfunv, cachedfun) in
+//	                           variables shared by every goroutine executing that statement
+//	race-intaddresstaken-flag  fast/address.go: &x of an integer variable of an outer frame sets env.IntAddressTaken = true
+//
+// and the unsynchronised type universe (F20) keeps its own key; everything else is race:<frame>|<frame>.
+func c10raceKeyOf(rep string) string {
+	fr := c10raceFrames(rep)
 	if len(fr) == 0 {
 		return "race-outside-interpreter"
 	}
-	return "race:" + strings.Join(fr, "|")
+	all := func(re *regexp.Regexp) bool {
+		for _, f := range fr {
+			if !re.MatchString(f) {
+				return false
+			}
+		}
+		return true
+	}
+	key := "race:" + strings.Join(fr, "|")
+	switch {
+	case all(c10reCallCache):
+		return "race-call-cache"
+	case all(c10reAddress):
+		return "race-intaddresstaken-flag"
+	case strings.Contains(key, "typeutil") || strings.Contains(key, "xreflect.(*Universe)"):
+		return "compile-while-running-universe-race"
+	}
+	return key
+}
+
+// c10raceKey: key of a batch of reports: an unnamed race (race:...) wins over the named families, so that a recorded
+// finding cannot hide another race reported during the same program
+func c10raceKey(txt string) string {
+	k, _ := c10racePick(txt, nil)
+	return k
+}
+
+// c10racePick returns the key and the text of the report chosen by c10raceKey among those accepted by keep
+func c10racePick(txt string, keep func(frames []string) bool) (string, string) {
+	first, firstRep := "", ""
+	for _, rep := range c10raceSplit(txt) {
+		if keep != nil && !keep(c10raceFrames(rep)) {
+			continue
+		}
+		k := c10raceKeyOf(rep)
+		if strings.HasPrefix(k, "race:") {
+			return k, rep
+		}
+		if first == "" {
+			first, firstRep = k, rep
+		}
+	}
+	return first, firstRep
 }
 
 func c10exec(op string) Result {
@@ -605,14 +677,12 @@ func c10exec(op string) Result {
 		return res
 	}
 	if rep := c10newRaces(); rep != "" {
-		res.Viol = "data race reported while a race-free program ran:\n" + truncate(rep, 3000)
-		res.Key = c10raceKey(rep)
-		if strings.Contains(res.Key, "typeutil") || strings.Contains(res.Key, "xreflect.(*Universe)") {
-			// the unsynchronised Universe again (F20): a goroutine of an earlier program is still running
-			// (or starts late) while the next program is being compiled
-			res.Key = "compile-while-running-universe-race"
+		key, one := c10racePick(rep, nil)
+		if key != "" {
+			res.Viol = "data race reported while a race-free program ran:\n" + truncate(one, 3000)
+			res.Key = key
+			res.Tags = append(res.Tags, "race-report")
 		}
-		res.Tags = append(res.Tags, "race-report")
 	}
 	return res
 }
